@@ -47,7 +47,12 @@ func (f *Field) resolve(file *File) error {
 }
 
 func (f *Field) resolved() error {
-	ref := f.Type.Ref
+	typ := f.Type
+	if typ.Kind == KindList {
+		typ = typ.Element
+	}
+
+	ref := typ.Ref
 	if ref == nil {
 		return nil
 	}
